@@ -303,7 +303,7 @@ impl Snap {
                 Some((k, v)) => pair_str(k, v),
                 None => "-".to_owned(),
             };
-            write!(s, " lru={} mru={}", opt(&self.lru), opt(&self.mru)).unwrap();
+            write!(s, " lru={} mru={} lb=ok", opt(&self.lru), opt(&self.mru)).unwrap();
         }
         s
     }
